@@ -26,6 +26,9 @@ type Parser struct {
 	errors      []ParseError
 	defaultYear int
 	inputLen    int
+	// lastEnd is the end of the last token consumed that carries text (not a
+	// newline or indent): where the construct being parsed ends in the source.
+	lastEnd Position
 }
 
 func Parse(input string) (*ast.Journal, []ParseError) {
@@ -114,6 +117,7 @@ func (p *Parser) parseTransaction() *ast.Transaction {
 	p.expectFreeText()
 	if p.current.Type == TokenText {
 		desc := p.current.Value
+		tx.PayeeRange = ast.Range{Start: toASTPosition(p.current.Pos), End: toASTPosition(p.current.End)}
 		p.advance()
 
 		if p.current.Type == TokenPipe {
@@ -155,7 +159,7 @@ func (p *Parser) parseTransaction() *ast.Transaction {
 		}
 	}
 
-	tx.Range.End = toASTPosition(p.current.Pos)
+	tx.Range.End = toASTPosition(p.lastEnd)
 	return tx
 }
 
@@ -327,7 +331,7 @@ func (p *Parser) parsePosting() (*ast.Posting, *ast.Comment) {
 		p.advance()
 	}
 
-	posting.Range.End = toASTPosition(p.current.Pos)
+	posting.Range.End = toASTPosition(p.lastEnd)
 	return posting, nil
 }
 
@@ -403,7 +407,7 @@ func (p *Parser) parseAmount() *ast.Amount {
 		}
 	}
 
-	amount.Range.End = toASTPosition(p.current.Pos)
+	amount.Range.End = toASTPosition(p.lastEnd)
 	return amount
 }
 
@@ -421,7 +425,7 @@ func (p *Parser) parseCost() *ast.Cost {
 		return nil
 	}
 	cost.Amount = *amount
-	cost.Range.End = toASTPosition(p.current.Pos)
+	cost.Range.End = toASTPosition(p.lastEnd)
 	return cost
 }
 
@@ -439,7 +443,7 @@ func (p *Parser) parseBalanceAssertion() *ast.BalanceAssertion {
 		return nil
 	}
 	ba.Amount = *amount
-	ba.Range.End = toASTPosition(p.current.Pos)
+	ba.Range.End = toASTPosition(p.lastEnd)
 	return ba
 }
 
@@ -486,7 +490,7 @@ func (p *Parser) parseAccountDirective(startPos Position) ast.Directive {
 	dir := ast.AccountDirective{
 		Account: ast.Account{
 			Name:  accountName,
-			Range: ast.Range{Start: toASTPosition(accountPos)},
+			Range: ast.Range{Start: toASTPosition(accountPos), End: toASTPosition(p.lastEnd)},
 		},
 		Range: ast.Range{Start: toASTPosition(startPos)},
 	}
@@ -502,7 +506,7 @@ func (p *Parser) parseAccountDirective(startPos Position) ast.Directive {
 	}
 
 	dir.Subdirs = p.parseSubdirectives()
-	dir.Range.End = toASTPosition(p.current.Pos)
+	dir.Range.End = toASTPosition(p.lastEnd)
 
 	return dir
 }
@@ -518,7 +522,7 @@ func (p *Parser) parseCommodityDirective(startPos Position) ast.Directive {
 		symbol := p.current.Value
 		dir.Commodity = ast.Commodity{
 			Symbol: symbol,
-			Range:  ast.Range{Start: toASTPosition(p.current.Pos)},
+			Range:  ast.Range{Start: toASTPosition(p.current.Pos), End: toASTPosition(p.current.End)},
 		}
 		p.advance()
 
@@ -535,7 +539,7 @@ func (p *Parser) parseCommodityDirective(startPos Position) ast.Directive {
 		if p.current.Type == TokenCommodity || p.current.Type == TokenText {
 			dir.Commodity = ast.Commodity{
 				Symbol: p.current.Value,
-				Range:  ast.Range{Start: toASTPosition(p.current.Pos)},
+				Range:  ast.Range{Start: toASTPosition(p.current.Pos), End: toASTPosition(p.current.End)},
 			}
 			dir.Format = number + " " + p.current.Value
 			p.advance()
@@ -543,7 +547,7 @@ func (p *Parser) parseCommodityDirective(startPos Position) ast.Directive {
 	case TokenText:
 		dir.Commodity = ast.Commodity{
 			Symbol: p.current.Value,
-			Range:  ast.Range{Start: toASTPosition(p.current.Pos)},
+			Range:  ast.Range{Start: toASTPosition(p.current.Pos), End: toASTPosition(p.current.End)},
 		}
 		p.advance()
 	}
@@ -564,12 +568,13 @@ func (p *Parser) parseCommodityDirective(startPos Position) ast.Directive {
 		dir.Note = note
 	}
 
-	dir.Range.End = toASTPosition(p.current.Pos)
+	dir.Range.End = toASTPosition(p.lastEnd)
 	return dir
 }
 
 func (p *Parser) parseIncludeDirective(startPos Position) ast.Directive {
 	var path strings.Builder
+	pathStart := p.current.Pos
 
 	for p.current.Type != TokenNewline && p.current.Type != TokenEOF && p.current.Type != TokenComment {
 		path.WriteString(p.current.Value)
@@ -584,10 +589,10 @@ func (p *Parser) parseIncludeDirective(startPos Position) ast.Directive {
 	}
 
 	inc := ast.Include{
-		Path:  pathStr,
-		Range: ast.Range{Start: toASTPosition(startPos)},
+		Path:      pathStr,
+		Range:     ast.Range{Start: toASTPosition(startPos), End: toASTPosition(p.lastEnd)},
+		PathRange: ast.Range{Start: toASTPosition(pathStart), End: toASTPosition(p.lastEnd)},
 	}
-	inc.Range.End = toASTPosition(p.current.Pos)
 	p.skipToNextLine()
 	return inc
 }
@@ -607,7 +612,7 @@ func (p *Parser) parsePriceDirective(startPos Position) ast.Directive {
 	if p.current.Type == TokenCommodity || p.current.Type == TokenText {
 		dir.Commodity = ast.Commodity{
 			Symbol: p.current.Value,
-			Range:  ast.Range{Start: toASTPosition(p.current.Pos)},
+			Range:  ast.Range{Start: toASTPosition(p.current.Pos), End: toASTPosition(p.current.End)},
 		}
 		p.advance()
 	} else {
@@ -623,7 +628,7 @@ func (p *Parser) parsePriceDirective(startPos Position) ast.Directive {
 	}
 	dir.Price = *price
 
-	dir.Range.End = toASTPosition(p.current.Pos)
+	dir.Range.End = toASTPosition(p.lastEnd)
 	p.skipToNextLine()
 	return dir
 }
@@ -715,7 +720,7 @@ func (p *Parser) parseDefaultCommodityDirective(startPos Position) ast.Directive
 		}
 	}
 
-	dir.Range.End = toASTPosition(p.current.Pos)
+	dir.Range.End = toASTPosition(p.lastEnd)
 	p.skipToNextLine()
 	return dir
 }
@@ -740,7 +745,7 @@ func (p *Parser) parseYearDirective(startPos Position) ast.Directive {
 		Range: ast.Range{Start: toASTPosition(startPos)},
 	}
 	p.advance()
-	dir.Range.End = toASTPosition(p.current.Pos)
+	dir.Range.End = toASTPosition(p.lastEnd)
 	p.skipToNextLine()
 	return dir
 }
@@ -836,6 +841,13 @@ func isValidTagName(name string) bool {
 }
 
 func (p *Parser) advance() {
+	switch p.current.Type {
+	case TokenNewline, TokenIndent, TokenEOF:
+	default:
+		if p.current.End.Line != 0 {
+			p.lastEnd = p.current.End
+		}
+	}
 	p.current = p.lexer.Next()
 }
 
